@@ -4,6 +4,7 @@
    holds what.  Core only. -/
 import SemaModel.Base.DriverUtil
 import SemaModel.C14.Model
+import SemaModel.C14.Concurrent
 namespace Sema.C14
 
 structure DSt where
@@ -87,6 +88,45 @@ def dumpNode (d : DSt) (n : String) : String :=
   let fs := (sortKeys d.fkeys).filterMap fun k => (d.st.files n k).map (showCopy d "f:" k)
   s!"{n}[r " ++ " ".intercalate rs ++ " | f " ++ " ".intercalate fs ++ "]"
 
+/-! ### concurrent rounds (`csync`): every started node runs `Sync` at the same time
+
+The prediction is the SPECIFICATION of `C14_converges_concurrent` / `C14_epochs_converges_concurrent`
+(`placedSpec`: every current record / shard file at its routing owner, on no other started node,
+switched-off nodes untouched, no `Sync` failed) — whatever the real interleaving was.  In addition the
+driver executes the concurrent program of `Concurrent.lean` under a pseudo-random schedule taken from
+the line and reports when that run does not end in the specified state. -/
+
+def placedSpec (d : DSt) : St String String :=
+  let cfg := d.cfg
+  let w := d.world
+  { recs := fun n k =>
+      if cfg.up n then (if n = cfg.owner k then (match w.ro k with | some v => some v | none => d.st.recs n k) else none)
+      else d.st.recs n k,
+    files := fun n k =>
+      if cfg.up n then (if n = cfg.fowner k then (match w.fo k with | some v => some v | none => d.st.files n k) else none)
+      else d.st.files n k,
+    rconf := fun n k => if cfg.up n then false else d.st.rconf n k,
+    fph := fun n k => if cfg.up n then .idle else d.st.fph n k,
+    failed := fun n => if cfg.up n then false else d.st.failed n }
+
+def cThreads (nodes : List String) : List (Tid String) :=
+  nodes.flatMap fun n => Tid.main n :: nodes.map fun dst => Tid.go n dst
+
+/-- the concurrent program under a pseudo-random schedule, until no thread can take a step -/
+def crunRandom (cfg : Cfg String String) (rkeys fkeys : List String) (nodes : List String) :
+    Nat → Nat → CSt String String → CSt String String
+  | 0, _, c => c
+  | fuel + 1, seed, c =>
+      let succs := (cThreads nodes).filterMap fun t => cstepT cfg rkeys fkeys t c
+      if succs.isEmpty then c else
+      let seed' := (seed * 6364136223846793005 + 1442695040888963407) % 18446744073709551616
+      crunRandom cfg rkeys fkeys nodes fuel seed' (succs.getD ((seed' / 8589934592) % succs.length) c)
+
+def sameOn (d : DSt) (a b : St String String) : Bool :=
+  d.nodes.all fun n =>
+    (a.failed n == b.failed n) &&
+    (d.rkeys.all fun k => a.recs n k == b.recs n k) && (d.fkeys.all fun k => a.files n k == b.files n k)
+
 def stepLine (d : DSt) (line : String) : DSt × String :=
   let bad := (d, "bad-op")
   match (line.trimAscii.toString.splitOn " ").filter (· ≠ "") with
@@ -110,6 +150,21 @@ def stepLine (d : DSt) (line : String) : DSt × String :=
       | some flt =>
           let st := syncNode d.cfg flt d.nodes d.rkeys (walkOrder d.fkeys) n d.st
           ({ d with st := st }, if st.failed n then "fail" else "ok")
+      | none => bad
+  | ["csync", seed, ns] => match seed.toNat? with
+      | some seed =>
+          let cfg := d.cfg
+          let ups := d.nodes.filter fun n => cfg.up n
+          if sortKeys (ns.splitOn ",") != sortKeys ups then bad else
+          let spec := placedSpec d
+          let c := crunRandom cfg d.rkeys (walkOrder d.fkeys) ups 1000000 seed (cinit d.st)
+          let failedNodes := (sortKeys ups).filter fun n => c.st.failed n
+          let res :=
+            if !failedNodes.isEmpty then "fail:" ++ ",".intercalate failedNodes
+            else if !(ups.all fun n => (c.pc n).isDone) then "model-not-finished"
+            else if !(sameOn d c.st spec) then "model-run-differs-from-spec"
+            else "ok"
+          ({ d with st := spec }, res)
       | none => bad
   | ["rsendlost", src, dst] =>
       -- the receiver stored the batch, the sender never saw the reply (killed / connection lost)
